@@ -30,12 +30,12 @@ CHECKS = {
 CHECKS["C12"] = ("fault_enumeration", "6.C12", "Per generated rule set: store through a simulated disk, load, re-store, re-load with metadata and behavioural (Sim E trace) comparison; every write-call index failed once in sticky and transient mode; truncation at every write boundary plus seeded interior offsets (thorough: every byte); chunking readers; failing read calls; overwrite flag.",
  "Trusted base: the simulated writer/reader, Sim E as behavioural comparator (3 fact sets per rule set), the catalog write-order hook. Rule sets are sampled; the fault positions are enumerated per rule set.", "deterministic simulation with fault injection: simulated disk, per-scenario enumeration of write failures and truncation offsets")
 
-CHECKS["C09"] = ("exploration", "6.C09", "2-4 tasks create instances from one library and execute them on their own facts; a seeded cooperative scheduler decides the interleaving at every yield point (node-id draws inside Clone, hooked loops, seam events). Oracles: instance behaves like the library's own knowledge base; per-task result independent of task order and of interleaving; reflection over the pointer graph shows no shared mutable node; blueprint structurally unchanged.",
+CHECKS["C09"] = ("exploration", "6.C09", "2-4 tasks create instances from one library and execute them on their own facts; a seeded cooperative scheduler decides the interleaving at every yield point (node-id draws inside Clone, hooked loops, seam events). Oracles: instance behaves like the library's own knowledge base; per-task result independent of task order and of interleaving; reflection over the pointer graph shows no shared mutable node; blueprint structurally unchanged. Every fourth run index additionally runs a library history (builds accepted and rejected, removals, stores, loads) after every operation of which every knowledge base must be instantiable.",
  "Trusted base: the cooperative scheduler (real goroutines released one at a time), the reflection walker's list of mutable node types, Sim E as behavioural comparator. Interleaving granularity is seam/hook points, not instructions; data races that never change a value are outside the simulation and are what the auxiliary arm (same task scripts on real goroutines in a -race binary, 2 000 scenarios quick / 20 000 thorough) is for.", "deterministic simulation: seeded interleaving search over cooperative tasks + pointer-graph isolation invariant")
 
 H_NOTE = "Trusted base: the history generator and its executable model (name -> text version, salience, description, tombstone), marker rules that reveal their text version, the simulated resource readers. Histories are sampled."
 CHECKS["C08"] = ("exploration", "6.C08", "Histories of 2-6 Execute / cancelled Execute / faulted Execute / FetchMatchingRules calls on one instance; every call is compared (trace, return value, matches, final facts) with the same call on an instance created at that moment.", "Differential against the engine itself on a new instance; the Sim E wrappers and generator contract.", "deterministic simulation: seeded call histories with injected faults and cancellations, differential oracle (reused vs. new instance)")
-CHECKS["C16"] = ("exploration", "6.C16", "Histories of build / remove / re-build / instantiate / store / load operations over 1-3 knowledge bases in 1-3 libraries; after every operation every knowledge base is instantiated, stored+loaded, fetched and executed on probe facts and compared with an executable model.", H_NOTE, "deterministic simulation: seeded operation histories checked step by step against an executable reference model")
+CHECKS["C16"] = ("exploration", "6.C16", "Histories of build / remove / re-build / instantiate / store / load operations over 1-3 knowledge bases in 1-3 libraries; after every operation every knowledge base is instantiated, stored+loaded, fetched and executed on probe facts and compared with an executable model. Every eighth run index of C16 additionally executes a generated rule set in Sim E while a listener removes a rule from the instance at a cycle boundary: the rule is neither evaluated nor fired afterwards.", H_NOTE, "deterministic simulation: seeded operation histories checked step by step against an executable reference model")
 CHECKS["C17"] = ("exploration", "6.C17", "The same histories mixed with valid documents in varied notation (must be accepted with all metadata), documents invalid by construction in 16 classes (must be rejected; syntactic ones with a GruleErrorReporter) and resources whose reader fails; a rejection must leave every previously loaded knowledge base instantiable, storable and behaving as before.", H_NOTE + " Acceptance exactness is decided on constructed classes only (no independent recogniser for arbitrary token mutants).", "deterministic simulation: seeded operation histories with malformed resources and failing readers, state-after-rejection checked against a reference model")
 
 CHECKS["C20"] = ("exploration", "6.C20", "Valid GRL, JSON-rule, JSON-fact and GRB artefacts are damaged on the simulated disk (bit flips, length-field edits with boundary numbers, truncation, splices, zero-filled tails, duplicated blocks, hostile fragments, random bytes), delivered through chunking readers and loaded in a guarded child process; oracle: value-or-error, no panic, no process abort, allocation within 64 MiB + 64 KiB/byte, completion within a watchdog (confirmed alone before it is called a hang).",
